@@ -198,6 +198,83 @@ fn check(c: &Case, obs: &mut Obs) -> Result<(), String> {
     if acc != pa {
         return Err("(a += b) -= b != a".into());
     }
+    // every compound-assignment form equals its operator and leaves the canonical representative;
+    // the From / Into impls agree with Phase::new / to_rational
+    {
+        let stored = |p: Phase, what: &str| -> Result<(), String> {
+            let (n, d) = of(p);
+            if d <= 0 || !(-d < n && n <= d) || gcd(n, d) != 1 {
+                return Err(format!("{what} stores the non-canonical representative {n}/{d}"));
+            }
+            Ok(())
+        };
+        let mut x = pa;
+        x += pb;
+        stored(x, "a += b")?;
+        if x != sum {
+            return Err(format!("a += b gives {:?}, a + b gives {:?}", of(x), of(sum)));
+        }
+        let mut x = pa;
+        x -= pb;
+        stored(x, "a -= b")?;
+        if of(x) != of(diff) {
+            return Err(format!("a -= b gives {:?}, a - b gives {:?}", of(x), of(diff)));
+        }
+        let mut x = pa;
+        guarded("mul_assign i64", || x *= c.k)?;
+        stored(x, "a *= k")?;
+        if of(x) != of(scaled) {
+            return Err(format!("a *= {} gives {:?}, a * k gives {:?}", c.k, of(x), of(scaled)));
+        }
+        if c.k != 0 {
+            let mut x = pa;
+            guarded("div_assign i64", || x /= c.k)?;
+            stored(x, "a /= k")?;
+            if of(x) != of(pa / c.k) {
+                return Err(format!("a /= {} differs from a / k", c.k));
+            }
+        }
+        // phase times / over phase: defined on the stored representatives
+        let prod = guarded("mul phase", || pa * pb)?;
+        stored(prod, "a * b")?;
+        if of(prod) != canon(ca.0 * cb.0, ca.1 * cb.1) {
+            return Err(format!("{ca:?} * {cb:?} = {:?}", of(prod)));
+        }
+        let mut x = pa;
+        x *= pb;
+        if x != prod {
+            return Err("a *= b differs from a * b".into());
+        }
+        if cb.0 != 0 {
+            let quo = guarded("div phase", || pa / pb)?;
+            stored(quo, "a / b")?;
+            if of(quo) != canon(ca.0 * cb.1, ca.1 * cb.0) {
+                return Err(format!("{ca:?} / {cb:?} = {:?}", of(quo)));
+            }
+            let mut x = pa;
+            x /= pb;
+            if x != quo {
+                return Err("a /= b differs from a / b".into());
+            }
+        }
+        let via_pair: Phase = (an, ad).into();
+        let via_ratio: Phase = Rational64::new(an, ad).into();
+        if via_pair != pa || via_ratio != pa || of(via_pair) != ca || of(via_ratio) != ca {
+            return Err(format!("From<(i64,i64)> / From<Rational64> for {an}/{ad} differ from Phase::new"));
+        }
+        let via_int: Phase = c.turns.into();
+        if of(via_int) != canon(c.turns as i128, 1) {
+            return Err(format!("From<i64>({}) stores {:?}", c.turns, of(via_int)));
+        }
+        let back: Rational64 = pa.into();
+        if back != pa.to_rational() {
+            return Err("Into<Rational64> differs from to_rational".into());
+        }
+        let f: f64 = pa.into();
+        if f != pa.to_f64() || (f - ca.0 as f64 / ca.1 as f64).abs() > 1e-15 {
+            return Err(format!("Into<f64> of {ca:?} gives {f}"));
+        }
+    }
     // classification depends only on the class
     let is_int = ca.1 == 1;
     let pauli = is_int;
@@ -483,7 +560,7 @@ pub fn def(ctx: &Ctx) -> PropertyDef {
     ];
     PropertyDef {
         id: "C16",
-        rule: "rationals n/d with |n|,|d| < 2^31 (numerators edge-biased around multiples of d, negative denominators through Ratio::new) against an i128 model: stored representative is the unique reduced one in (-1,1]; == <=> congruent mod 2; + - neg *int /int agree with the model; classification depends only on the class; limit_denominator == a port of CPython's algorithm for every bound and a brute-force closest fraction for bounds <= 64; floats |x| <= 1e6 round-trip modulo 2 to 1e-9. Non-trivial = input outside (-1,1] or at an interval end, limit_denominator tie, float with |x| > 1.",
+        rule: "rationals n/d with |n|,|d| < 2^31 (numerators edge-biased around multiples of d, negative denominators through Ratio::new) against an i128 model: stored representative is the unique reduced one in (-1,1]; == <=> congruent mod 2; + - neg *int /int agree with the model, as do the compound assignments += -= *= /= (each must also leave the canonical representative), phase*phase and phase/phase on the stored representatives, and the From/Into impls; classification depends only on the class; limit_denominator == a port of CPython's algorithm for every bound and a brute-force closest fraction for bounds <= 64; floats |x| <= 1e6 round-trip modulo 2 to 1e-9. Non-trivial = input outside (-1,1] or at an interval end, limit_denominator tie, float with |x| > 1.",
         assumptions: vec!["i128 rational model; CPython limit_denominator ported from Lib/fractions.py"],
         sections,
     }
